@@ -27,6 +27,7 @@ type c12DistCase struct {
 	Inf       bool      // also evaluate at ±Inf
 	Ps        []float64 // arguments of the inverse (some outside [0,1])
 	Integrate bool      // apply the numerical-integration oracle
+	Reuse     int       // the inverse functions are first used for this many other probabilities (one object, many calls)
 }
 
 func c12GenNu(t *rapid.T) float64 {
@@ -139,6 +140,9 @@ func c12GenDist(t *rapid.T) c12DistCase {
 		c.Ps = append(c.Ps, c12GenP(t, "p"))
 	}
 	c.Integrate = rapid.IntRange(0, 3).Draw(t, "integrate") == 0
+	if vcase.OneIn(t, 800, "reuse") {
+		c.Reuse = rapid.IntRange(1100, 1600).Draw(t, "nreuse")
+	}
 	// probabilities that are exactly the distribution function at small integers and at
 	// 2^k-1 (points a bracketing search is likely to probe): InvCDF must invert there too
 	if c.Kind == "t" && rapid.IntRange(0, 2).Draw(t, "probe") == 0 {
@@ -383,6 +387,36 @@ func c12CheckDist(c c12DistCase) (v vcase.Verdict) {
 		invs = append(invs, inv{"closed", dist, InvCDF(dist)})
 		w := c12NoInv{dist}
 		invs = append(invs, inv{"generic", w, InvCDF(w)})
+	}
+	// One inverse function used for many probabilities (drawing variates,
+	// tabulating quantiles): it must keep inverting. The probabilities are a
+	// fixed low-discrepancy sequence; each answer is checked like the others.
+	if c.Reuse > 0 {
+		v.Label("inverse_reused_>1000x")
+		for _, iv := range invs {
+			for i := 1; i <= c.Reuse; i++ {
+				p := math.Mod(float64(i)*0.6180339887498949, 1)
+				x := iv.f(p)
+				if i%16 != 0 && c12Finite(x) && math.Abs(x) < 1e300 {
+					continue // (every 16th answer, and every suspicious one, is checked in full)
+				}
+				back := dist.CDF(x)
+				tol := 1e-9
+				if c.Kind == "normal" && c12Finite(x) {
+					tol += 0.4 * c12Ulp(x) / c.Sigma
+				}
+				if d := math.Abs(back - p); !(d <= tol) {
+					if c.Kind == "t" && vcase.KnownListed("C12-a") && c12Finite(x) {
+						if m, ok := c12StairModel(c.V, x); ok && math.Abs(back-m) <= 1e-9 {
+							v.KnownHit("C12-a")
+							continue
+						}
+					}
+					v.Failf("%s %+v: %s inverse, call %d on one inverse function: CDF(InvCDF(%v)) = CDF(%v) = %v (off by %g, tolerance %g)", c.Kind, dist, iv.name, i, p, x, back, d, tol)
+					return
+				}
+			}
+		}
 	}
 	for _, p := range c.Ps {
 		for _, iv := range invs {
